@@ -708,26 +708,25 @@ func responseWriterRules(c *Ctx, prop string) {
 	recognised := map[*ast.Ident]bool{}
 	// pair records "under the guard err == errName the text variable textID is written"
 	pair := func(errName string, body ast.Node) {
+		// any mention of a precomputed text under the guard: written directly, returned to the
+		// writer by a helper, assigned to the variable that is written afterwards
 		ast.Inspect(body, func(n ast.Node) bool {
-			call, ok := n.(*ast.CallExpr)
+			arg, ok := n.(*ast.Ident)
 			if !ok {
 				return true
 			}
-			for _, a := range call.Args {
-				arg, ok := a.(*ast.Ident)
-				if !ok {
-					continue
-				}
-				src, known := tailOf[arg.Name]
-				if !known {
-					continue
-				}
-				pairs++
-				used[arg.Name] = true
-				recognised[arg] = true
-				if src != errName {
-					problems = append(problems, fmt.Sprintf("case %s writes %s, which is the text of %s", errName, arg.Name, src))
-				}
+			src, known := tailOf[arg.Name]
+			if !known {
+				return true
+			}
+			if _, isVar := pk.TypesInfo.Uses[arg].(*types.Var); !isVar {
+				return true
+			}
+			pairs++
+			used[arg.Name] = true
+			recognised[arg] = true
+			if src != errName {
+				problems = append(problems, fmt.Sprintf("case %s uses %s, which is the text of %s", errName, arg.Name, src))
 			}
 			return true
 		})
